@@ -295,4 +295,66 @@ theorem nodeInsert_eq_model (goLeft : (Int × Int) → Node → Bool) (tb : TieB
         · rw [h2, toTree_eq]
           simp only [toTreeO_some, s2, entryOf]
 
+/-! ## the tie-break found in the source -/
+
+/-- the condition hole of the source as a tie-break of the model (it only reads the two starts) -/
+def srcTb : TieBreak := fun e x => nodeInsert_goLeft (e.lo, e.hi) ⟨(x.lo, x.hi), x.data, 0, 0, none, none⟩
+
+theorem holeIs_src : HoleIs nodeInsert_goLeft srcTb := by
+  intro iv d n
+  cases n
+  rfl
+
+/-- the test of the source is admissible: what goes left does not start after the node, what goes right does not start
+before it — true of the pinned `<=` and of the `<` of seeded change C07-H1 alike -/
+theorem tieOk_src : TieOk srcTb := by
+  intro e x
+  simp only [srcTb, nodeInsert_goLeft, decide_eq_true_eq, decide_eq_false_iff_not, ge_iff_le, gt_iff_lt]
+  omega
+
+/-! ## `IntervalTree::insert` and whole histories -/
+
+theorem treeInsert_eq_model (goLeft : (Int × Int) → Node → Bool) (tb : TieBreak) (hh : HoleIs goLeft tb) (fuel : Nat)
+    (T : IntervalTree) (iv : Int × Int) (d : Int) (g : Good (toTreeO T.root)) (hs : size (toTreeO T.root) + 1 < 2 ^ 60)
+    (hf : size (toTreeO T.root) ≤ fuel) :
+    ∃ T', treeInsert goLeft fuel T iv d = ok T' ∧ toTreeO T'.root = insertG tb (toTreeO T.root) ⟨iv.1, iv.2, d⟩ := by
+  obtain ⟨root⟩ := T
+  cases root with
+  | none =>
+    refine ⟨⟨some ⟨iv, d, iv.2, 1, none, none⟩⟩, ?_, ?_⟩
+    · simp only [treeInsert, nodeNew_eq, Res.ok_bind, pure_bind, Res.pure_eq_ok]
+    · simp only [toTreeO_some, toTree_new, toTreeO_none, insertG]
+  | some n =>
+    simp only [toTreeO_some] at g hs hf ⊢
+    obtain ⟨n', h1, h2⟩ := nodeInsert_eq_model goLeft tb hh fuel n iv d g hs
+      (Nat.le_trans (ht_le_size _ g.1) hf)
+    refine ⟨⟨some n'⟩, ?_, ?_⟩
+    · simp only [treeInsert, h1, Res.ok_bind, pure_bind, Res.pure_eq_ok]
+    · simpa using h2
+
+/-- a history of `insert(start..end, data)` calls through the translated `IntervalTree::insert` -/
+def srcBuild (goLeft : (Int × Int) → Node → Bool) (fuel : Nat) : List (Int × Int × Int) → IntervalTree → Res IntervalTree
+  | [], T => ok T
+  | (s, e, d) :: es, T => treeInsert goLeft fuel T (s, e) d >>= srcBuild goLeft fuel es
+
+def entriesOf (es : List (Int × Int × Int)) : List Ivl.Entry := es.map (fun p => ⟨p.1, p.2.1, p.2.2⟩)
+
+theorem srcBuild_eq_model (goLeft : (Int × Int) → Node → Bool) (tb : TieBreak) (hh : HoleIs goLeft tb) (fuel : Nat) :
+    ∀ (es : List (Int × Int × Int)) (T : IntervalTree), Good (toTreeO T.root) →
+      size (toTreeO T.root) + es.length < 2 ^ 60 → size (toTreeO T.root) + es.length ≤ fuel →
+      ∃ T', srcBuild goLeft fuel es T = ok T' ∧
+        toTreeO T'.root = (entriesOf es).foldl (insertG tb) (toTreeO T.root)
+  | [], T, _, _, _ => ⟨T, rfl, rfl⟩
+  | (s, e, d) :: es, T, g, hs, hf => by
+    simp only [List.length_cons] at hs hf
+    obtain ⟨T1, h1, h2⟩ := treeInsert_eq_model goLeft tb hh fuel T (s, e) d g (by omega) (by omega)
+    have g1 : Good (toTreeO T1.root) := by rw [h2]; exact (insertG_good tb _ _ g).1
+    have sz : size (toTreeO T1.root) = size (toTreeO T.root) + 1 := by rw [h2, size_insertG]
+    obtain ⟨T', h3, h4⟩ := srcBuild_eq_model goLeft tb hh fuel es T1 g1 (by omega) (by omega)
+    refine ⟨T', ?_, ?_⟩
+    · simp only [srcBuild, h1, Res.ok_bind, h3]
+    · rw [h4, h2]; rfl
+
+theorem treeDefault_eq : treeDefault = ok ⟨none⟩ := rfl
+
 end RbV.GenSrcAvl
